@@ -271,6 +271,7 @@ func runC16(c *Ctx) {
 	for n := 0; n <= 300; n++ {
 		c.Emit("c16.depth", fmt.Sprint(n), fmt.Sprint(trees.OctreeDepthFromCount(n)))
 	}
+	c.c16corpus()
 	for k := 0; k < c.N; k++ {
 		c.c16octreeCase()
 		if k%2 == 0 {
@@ -279,7 +280,40 @@ func runC16(c *Ctx) {
 		if k%3 == 0 {
 			c.c16bvhCase()
 		}
+		if k%6 == 1 {
+			c.c16sphereCase()
+		}
 	}
+}
+
+// past failures, run first
+func (c *Ctx) c16corpus() {
+	// (1) node bounds one ulp short of an element (fixed by e42b03d): query every point of the cloud at its own position
+	ps := []v3{
+		vector3.New(0.37026753645051064, 0.10019940926941497, 0.6432040265702031),
+		vector3.New(0.7698890899830834, 0.7911253356619845, 0.26238190747072776),
+		vector3.New(0.34686388037925503, 0.21465371537694145, 0.8220928971765717),
+	}
+	m := modeling.NewPointCloud(nil, map[string][]v3{modeling.PositionAttribute: ps}, nil, nil, nil)
+	tree := m.OctTreeDepth(3)
+	enc := "3 pt 3 " + c16v(ps[0]) + " " + c16v(ps[1]) + " " + c16v(ps[2])
+	c.Emit("c16.oct.bounds", enc, c16box(tree.BoundingBox()))
+	for i, p := range ps {
+		res := tree.ElementsContainingPoint(p)
+		c.Emit("c16.holds.eq_scan", "containing@corpus "+c16cnt(res)+" "+c16cnt([]int{i}), "true")
+		c.Emit("c16.oct.containing", enc+" "+c16v(p), c16ids(res))
+		res = tree.ElementsWithinRange(p, 0)
+		c.Emit("c16.holds.eq_scan", "within@corpus "+c16cnt(res)+" "+c16cnt([]int{i}), "true")
+		c.Emit("c16.oct.within", enc+" "+c16v(p)+" "+F(0), c16ids(res))
+	}
+	// (2) sphere box of half the size (fixed by 26964ba): a ray that hits the sphere off-centre
+	sp := rendering.NewSphere(vector3.New(0., 0., 0.), 1, nil)
+	ray := rendering.NewTemporalRay(vector3.New(0.8, 0., -5.), vector3.New(0., 0., 1.), 0)
+	r1, r2 := rendering.NewHitRecord(), rendering.NewHitRecord()
+	h1 := rendering.HitList{sp}.Hit(&ray, 0, 1e6, r1)
+	h2 := rendering.NewBVHTree([]rendering.Hittable{sp}, 0, 1, 0, 0).Hit(&ray, 0, 1e6, r2)
+	c.Emit("c16.holds.bvh", "bvhnode-spheres "+B(h2)+" "+F(r2.Distance)+" "+B(h1)+" "+F(r1.Distance), "true")
+	c.Emit("c16.holds.bvh_scan", "bvhnode-spheres "+B(h2)+" "+F(r2.Distance)+" 1 "+B(h1)+" "+F(r1.Distance), "true")
 }
 
 func (c *Ctx) c16octreeCase() {
@@ -383,15 +417,20 @@ func (c *Ctx) c16octreeCase() {
 			cps[i] = e.ClosestPoint(v)
 			d2s[i] = cps[i].DistanceSquared(v)
 			if d2s[i] < best {
-				best, nbest = d2s[i], 1
-			} else if d2s[i] == best {
+				best = d2s[i]
+			}
+		}
+		// "ties aside": elements within 1e-9·max(1,d) of the nearest count as tied with it
+		dBest := math.Sqrt(best)
+		for i := range d2s {
+			if math.Sqrt(d2s[i]) <= dBest+1e-9*math.Max(1, dBest) {
 				nbest++
 			}
 		}
 		if id < 0 || id >= n {
-			c.Emit("c16.holds.closest", fmt.Sprintf("%d", n+1)+" "+F(0)+" "+c16v(pt)+" "+c16v(pt)+" "+fmt.Sprint(n)+" "+Fs(d2s...), "true")
+			c.Emit("c16.holds.closest", where+" "+fmt.Sprintf("%d", n+1)+" "+F(0)+" "+c16v(pt)+" "+c16v(pt)+" "+fmt.Sprint(n)+" "+Fs(d2s...), "true")
 		} else {
-			c.Emit("c16.holds.closest", fmt.Sprint(id)+" "+F(pt.DistanceSquared(v))+" "+c16v(pt)+" "+c16v(cps[id])+" "+fmt.Sprint(n)+" "+Fs(d2s...), "true")
+			c.Emit("c16.holds.closest", where+" "+fmt.Sprint(id)+" "+F(pt.DistanceSquared(v))+" "+c16v(pt)+" "+c16v(cps[id])+" "+fmt.Sprint(n)+" "+Fs(d2s...), "true")
 		}
 		if modelled {
 			if nbest == 1 {
@@ -476,6 +515,57 @@ func (c *Ctx) c16slabCase() {
 }
 
 // BVHNode.Hit / rendering.Mesh.Hit / rendering.Tree.Hit (octree) vs HitList.Hit over the same triangles
+// BVHNode.Hit / rendering.Tree.Hit (octree) vs HitList.Hit over spheres
+func (c *Ctx) c16sphereCase() {
+	n := 1 + c.Rng.Intn(12)
+	centres, _ := c.c16positions(n)
+	spheres := make(rendering.HitList, n)
+	radii := make([]float64, n)
+	for i := range spheres {
+		radii[i] = 0.2 + c.Rng.Float64()*2
+		spheres[i] = rendering.NewSphere(centres[i], radii[i], nil)
+	}
+	for rep := 0; rep < 2; rep++ {
+		bvh := rendering.NewBVHTree(append([]rendering.Hittable(nil), spheres...), 0, n, 0, 0)
+		octBvh := rendering.NewBVH(append([]rendering.Hittable(nil), spheres...), 0, 0)
+		for q := 0; q < 3; q++ {
+			o := vector3.New(c.Rng.Float64()*60-30, c.Rng.Float64()*60-30, c.Rng.Float64()*60-30)
+			ti := c.Rng.Intn(n)
+			// aim anywhere inside the sphere's silhouette, the rim included
+			off := vector3.New(c.Rng.NormFloat64(), c.Rng.NormFloat64(), c.Rng.NormFloat64())
+			if off.Length() < 1e-9 {
+				continue
+			}
+			target := centres[ti].Add(off.Normalized().Scale(radii[ti] * c.Rng.Float64()))
+			if target.Distance(o) < 1e-9 {
+				continue
+			}
+			mn, mx := 0., 1e6
+			ray := rendering.NewTemporalRay(o, target.Sub(o), 0)
+			recL := rendering.NewHitRecord()
+			hitL := spheres.Hit(&ray, mn, mx, recL)
+			per := make([]string, 0, 2*n)
+			for i := 0; i < n; i++ {
+				r := rendering.NewHitRecord()
+				h := spheres[i].Hit(&ray, mn, mx, r)
+				per = append(per, B(h), F(r.Distance))
+			}
+			if hitL {
+				c.Note("bvh.spheres.hit")
+			} else {
+				c.Note("bvh.spheres.miss")
+			}
+			recB := rendering.NewHitRecord()
+			hitB := bvh.Hit(&ray, mn, mx, recB)
+			c.Emit("c16.holds.bvh", "bvhnode-spheres "+B(hitB)+" "+F(recB.Distance)+" "+B(hitL)+" "+F(recL.Distance), "true")
+			c.Emit("c16.holds.bvh_scan", "bvhnode-spheres "+B(hitB)+" "+F(recB.Distance)+" "+fmt.Sprint(n)+" "+strings.Join(per, " "), "true")
+			recO := rendering.NewHitRecord()
+			hitO := octBvh.Hit(&ray, mn, mx, recO)
+			c.Emit("c16.holds.bvh", "octbvh-spheres "+B(hitO)+" "+F(recO.Distance)+" "+B(hitL)+" "+F(recL.Distance), "true")
+		}
+	}
+}
+
 func (c *Ctx) c16bvhCase() {
 	n := 1 + c.Rng.Intn(24)
 	if c.Rng.Intn(5) == 0 {
